@@ -1,14 +1,14 @@
 SPECIFICATION Spec
 CONSTANTS
-  MaxS = 1
-  EDepth = 1
-  SDepth = 0
-  Shapes = {"", "H"}
+  MaxS = 2
+  EDepth = 2
+  SDepth = 1
+  Shapes = {"", "H", "L", "C", "HC", "LC"}
   Mod = 1
   NCalls = 6
-  NProg = 1
-  Sample = FALSE
-  Wide = FALSE
+  NProg = 8
+  Sample = TRUE
+  Wide = TRUE
   Dump = TRUE
 INVARIANT NoDangling
 INVARIANT ModuleOK
